@@ -3,6 +3,7 @@ import Mieru.Proofs.DispatchSites
 import Mieru.Proofs.SocksReq
 import Mieru.Gen.Arith
 import Mieru.Gen.Facts
+import Mieru.Gen.C10
 /-!
 # C10 — no input from the network can crash the process
 
@@ -188,6 +189,36 @@ theorem udp_listener_never_closes (r : Role) (t : List Sess) (m : Md) (e : Env) 
     (udpStep r t m e).outcome ≠ .closeUnderlay :=
   (udpStep_safe r t m e hinv hw).noCloseUnderlay
 
+/-- **The shared listener survives every datagram, whatever happens to the reply.**  One iteration of
+    `PacketUnderlay.RunEventLoop` INCLUDING its own `return`s (`udpLoopStep true` = the code since "fix: a close
+    request that cannot be sent does not stop the packet event loop"): for every datagram, every sender, and
+    whether or not the socket can send to the datagram's source address (`replyWriteOk` — false for a source
+    port 0, which the kernel delivers but refuses to send to), the loop does not return: the one socket all
+    users of a server share stays open. (Audit A, C10 §2: the previous statement was about a model without the
+    loop's `return`; see the regression example below for the code before the repair.) -/
+theorem udp_listener_survives_failed_reply (r : Role) (t : List Sess) (m : Md) (e : Env) (hinv : UdpInv r t) (hw : e.wf) :
+    (udpLoopStep true r t m e).outcome ≠ .closeUnderlay ∧ (udpLoopStep true r t m e).outcome ≠ .panic ∧
+    UdpInv r (udpLoopStep true r t m e).table := by
+  have h : udpLoopStep true r t m e = udpStep r t m e := by
+    unfold udpLoopStep udpLoopStepWith udpStep; simp
+  rw [h]
+  exact ⟨(udpStep_safe r t m e hinv hw).noCloseUnderlay, (udpStep_safe r t m e hinv hw).noPanic, (udpStep_safe r t m e hinv hw).inv⟩
+
+/-- tie (T) for it: the `return`s of `PacketUnderlay.RunEventLoop`, regenerated with the conditions they sit under —
+    nil socket, shutdown (`ctx.Done`, `u.done`), a failed socket read — and NOTHING that depends on a segment or on
+    `writeOneSegment`; what a return triggers is `u.conn.Close()`; and no code outside the command-line front end
+    ends the process (`os.Exit`, `log.Fatal*`, …) -/
+theorem packet_loop_returns_expected :
+    Gen.C10.packetLoopReturns =
+      [("if u.conn == nil", "stderror.ErrNullPointer"),
+       ("select <-ctx.Done()", "nil"),
+       ("select <-u.done", "nil"),
+       ("if err != nil / select <-u.done", "nil"),
+       ("if err != nil", "fmt.Errorf(…)")] ∧
+    Gen.C10.packetLoopDefers = ["u.conn.Close()"] ∧
+    Gen.C10.exitSites = [] := by
+  refine ⟨by decide, by decide, by decide⟩
+
 /-- every history of datagrams on a UDP endpoint, starting from no sessions -/
 theorem udp_history_never_panics (r : Role) (l : List (Md × Env)) (hw : ∀ x ∈ l, x.2.wf) :
     Outcome.panic ∉ (udpRun r [] l).1 ∧ Outcome.closeUnderlay ∉ (udpRun r [] l).1 :=
@@ -351,6 +382,23 @@ example : (udpStep .server twoUsers { proto := 7, tsOk := true, sid := 1111 }
       { src := 5, keyUser := some "bob", body := { len := 0, payloadAuth := false } }).outcome = .drop ∧
     (udpStep .server twoUsers { proto := 200, tsOk := true, sid := 1111 }
       { src := 1, keyUser := some "bob", body := { len := 0, payloadAuth := false } }).outcome = .drop := by decide
+/-- REGRESSION (audit A, C10 §2; reproduced on the real server by `C10/server/udp/other-session-broken/seg/type=8/sid=value`
+    from source port 0): ONE ack of registered user bob naming an unknown session, sent from an address the socket
+    cannot send to. Before the repair the failed close request made the event loop return — the listener of ALL
+    users closed (`closeUnderlay`); now it is a drop with `replyFailed`, alice's session untouched -/
+example :
+    (udpLoopStep false .server twoUsers { proto := 8, tsOk := true, sid := 424242 }
+      { src := 3, keyUser := some "bob", replyWriteOk := false, body := { len := 0, payloadAuth := false } }).outcome = .closeUnderlay ∧
+    (udpLoopStep true .server twoUsers { proto := 8, tsOk := true, sid := 424242 }
+      { src := 3, keyUser := some "bob", replyWriteOk := false, body := { len := 0, payloadAuth := false } }).outcome = .drop ∧
+    (udpLoopStep true .server twoUsers { proto := 8, tsOk := true, sid := 424242 }
+      { src := 3, keyUser := some "bob", replyWriteOk := false, body := { len := 0, payloadAuth := false } }).replyFailed = true ∧
+    (udpLoopStep true .server twoUsers { proto := 8, tsOk := true, sid := 424242 }
+      { src := 3, keyUser := some "bob", replyWriteOk := false, body := { len := 0, payloadAuth := false } }).table = twoUsers ∧
+    -- a writable source: the close request goes out
+    (udpLoopStep true .server twoUsers { proto := 8, tsOk := true, sid := 424242 }
+      { src := 3, keyUser := some "bob", body := { len := 0, payloadAuth := false } }).reply = true := by decide
+
 /-- a new session: open request with a fresh id; id 0 is refused -/
 example : (udpStep .server twoUsers { proto := 2, tsOk := true, sid := 4242 }
       { src := 5, keyUser := some "bob", body := { len := 0, payloadAuth := false } }).outcome = .createSession ∧
